@@ -390,6 +390,9 @@ func runC03(c *Ctx) {
 		// (the zero-then-nil pair may sit in a private part of lock: `wipePrivKey()`)
 		var lockBlocks []*ssa.BasicBlock
 		for _, lf := range p.regionOf(fn) {
+			if lf.Parent() != nil {
+				continue // a function literal runs when it is called or deferred, not where it stands: not "zero, then nil"
+			}
 			lockBlocks = append(lockBlocks, lf.Blocks...)
 		}
 		for _, b := range lockBlocks {
